@@ -43,7 +43,12 @@ void set_state_probe(uint64_t (*probe)());
 // early expiry of timed waits as a costed deviation (default on); off = timeouts fire only when no thread can run
 void set_early_timeouts(bool on);
 
-struct ExploreStats { uint64_t executions, points, max_points, pruned_by_bound, with_preemption, pruned_by_state; int bound_completed; bool complete; };
+struct ExploreStats { uint64_t executions, points, max_points, pruned_by_bound, with_preemption, pruned_by_state; int bound_completed; bool complete; uint64_t distinct_states; bool states_saturated; };
+// distinct scheduler-visible states (thread positions, lock/semaphore/pipe contents, clock, harness probe) seen at schedule
+// points since the last states_reset(); counted in a preallocated table (no allocation while a body runs)
+void states_reset();
+uint64_t states_count();
+bool states_saturated();
 // Depth-first exploration of all schedules with at most `bound` preemptions (bound < 0: unbounded).
 // after(result) is called after every complete execution. Returns when the space is exhausted or max_exec is reached.
 ExploreStats explore(const std::function<void()>& body, const std::function<void(const Result&)>& after, int bound, uint64_t max_exec = 0, int step_limit = 20000, bool state_cache = false);
